@@ -59,7 +59,9 @@ def premise_str_index_from_search(prog, defp, where):
         root = prog.bodies.get(fb.root)
         if root is None:
             return False
-        sites = [blk] if fb is root else [rb for rb in root.rpo() for s_ in root.stmts(rb)
+        if getattr(fb, "is_flat", False):
+            blk = fb.origin_blk[blk]
+        sites = [blk] if fb.defp == root.defp else [rb for rb in root.rpo() for s_ in root.stmts(rb)
                                            if s_["k"] == "assign" and s_["rv"]["k"] == "agg" and s_["rv"].get("ak") == "closure" and s_["rv"].get("def") == fb.defp]
         for (ab, ac, at) in root.calls():
             if ac.method != "is_ascii":
@@ -69,9 +71,12 @@ def premise_str_index_from_search(prog, defp, where):
                     return True
         return False
 
-    for fb in prog.family(b.root):
+    for fb0 in prog.family(b.root):
+        fb = prog.flat(fb0.defp)       # an index computed by a helper (`port_separator(path)`) is followed into the helper
         for (blk, c, t) in fb.calls():
             if c.method not in ("index", "index_mut", "get", "get_mut", "split_at") or "str" not in c.target or not t.get("sp") or t["sp"][1] != line or len(t["args"]) < 2:
+                continue
+            if fb.origin[blk] != fb0.defp:
                 continue
             found = True
             if ascii_guarded(fb, blk):
